@@ -244,15 +244,4 @@ pub assume_specification [Curve::add] (c: &Curve, p: &Point, q: &Point) -> (r: P
 pub assume_specification [<Point as core::clone::Clone>::clone] (p: &Point) -> (r: Point)
     ensures forall|c: &Curve| pelem(c, &r) == pelem(c, p);
 
-/// ASSUMED (not proved: the streaming multiword chain builder is not under contract): `make_addition_chain_long`
-/// encodes n > 0 as a chain of at most 384 opcodes, doublings 2y with y <= 60, odd gaps up to 63, ending with a
-/// positive odd gap. `scalar1024_chainmul` is verified against this contract only.
-pub assume_specification [Curve::make_addition_chain_long] (chain: &mut [i8; 384], n: &U1024) -> (r: usize)
-    requires uv(*n) > 0
-    ensures
-        1 <= r <= 384,
-        chain_value(final(chain)@, r as int) == uv(*n) as int,
-        final(chain)@[r - 1] % 2 == 1 && 1 <= final(chain)@[r - 1] <= 63,
-        forall|i: int| 0 <= i < r - 1 ==> (#[trigger] final(chain)@[i] % 2 == 0 ==> 2 <= final(chain)@[i] <= 120)
-            && (final(chain)@[i] % 2 != 0 ==> -63 <= final(chain)@[i] <= 63);
 } // verus!
